@@ -9,7 +9,7 @@ import (
 	"golang.org/x/tools/go/ssa"
 )
 
-func init() { register("C01", []string{"./pkg/frame", "./pkg/tlog"}, runC01) }
+func init() { register("C01", framePkgs, runC01) }
 
 var framePkgs = []string{"./pkg/frame", "./pkg/tlog", "./pkg/streamwriter", "."}
 
@@ -98,9 +98,18 @@ func diffLayouts(got, want []string) string {
 	return fmt.Sprintf("spec entries not produced: %v; entries not in the spec: %v", miss, extra)
 }
 
-func runC01(c *Ctx) {
+// runC01inner: the rules of C01 proper (what other properties borrow from), without C01's own borrowed rules.
+func runC01inner(c *Ctx) { runC01with(c, false) }
+
+func runC01(c *Ctx) { runC01with(c, true) }
+
+func runC01with(c *Ctx, borrow bool) {
 	r := c.R
 	defer rulePeekLifetime(c, "R1.7", "C01: the frame read back must carry the id and payload that were written")
+	if borrow {
+		defer borrowRules(c, "C05", runC05, map[string]string{"R5.2": "R1.8"}, "the frame read back equals the frame written only when header and payload are read whole however the transport segments them")
+		defer borrowRules(c, "C08", runC08, map[string]string{"R8.4": "R1.9"}, "the payload marshalled into a v1 / v2 frame must be the encoding of its message for that very version")
+	}
 	r.NotDecided = append(r.NotDecided,
 		"field-for-field equality of Read(Write(f)) as an observed behaviour over all values (the layout agreement of writer and reader with the spec table is what is decided)",
 		"payloads longer than 255 bytes (outside the statement)")
@@ -600,16 +609,8 @@ func ruleMarkerDispatch(c *Ctx) {
 		t := typeStr(a.Type().(*types.Pointer).Elem())
 		k, known := want[t]
 		pred := phi.Block().Preds[i]
-		// pred must be reachable only through `marker == k` true edge
-		found := false
-		for _, iff := range ifsIn(fn) {
-			if b, ok := iff.Cond.(*ssa.BinOp); ok && b.Op == token.EQL && b.X == marker {
-				if kk, ok := constInt(b.Y); ok && known && kk == k && edgeMustPass(fn, edge{iff.Block(), iff.Block().Succs[0]}, pred) {
-					found = true
-				}
-			}
-		}
-		if !found {
+		// on every feasible path to pred the marker comparisons imply marker == k
+		if got, det := constOnAllPaths(fn, marker, pred); !known || !det || got != k {
 			okAll = false
 		}
 	}
